@@ -42,16 +42,16 @@ def exA : Mol :=
   { nodes := [(1, { name := some "N", resid := some 3, cg := some 2 }), (2, { name := some "CA" }),
               (5, { name := some "C", resid := some 4, cg := some 7 })],
     edges := [(1, 2), (5, 2)],
-    inters := [("bonds", { atoms := [1, 2], params := "p", version := 0 }),
-               ("angles", { atoms := [1, 2, 5], params := "q", version := 1 })],
+    inters := [("bonds", { atoms := [1, 2], params := "p" }),
+               ("angles", { atoms := [1, 2, 5], params := "q", version := some 1 })],
     cites := ["paperA"], nrexcl := some 1, maxNode := some 5 }
 
 /-- keys -3, 8, 0 in that order (not sorted), a self loop, cache not set -/
 def exB : Mol :=
   { nodes := [(-3, { name := some "X", resid := some 1 }), (8, { name := some "Y", cg := some 5 }), (0, {})],
     edges := [(8, -3), (0, 0), (0, 8)],
-    inters := [("bonds", { atoms := [8, -3], params := "r", version := 0 }),
-               ("constraints", { atoms := [0], params := "s", version := 0 })],
+    inters := [("bonds", { atoms := [8, -3], params := "r" }),
+               ("constraints", { atoms := [0], params := "s", version := some 0, edge := false })],
     cites := ["paperA", "paperB"], nrexcl := some 1, maxNode := none }
 
 /-- `exA` with a WRONG cache (1 instead of 5): violates the invariant -/
@@ -72,19 +72,24 @@ theorem inv_init : PoolInv [] ∧ ∀ n : Option Int, ({ nrexcl := n } : Mol).In
   · intro e he; cases he
   · intro ti hti; cases hti
 
-/-- EVERY operation (with every argument, succeeding or failing) preserves the invariant -/
-theorem inv_step (p : Pool) (op : Op) (h : PoolInv p) : PoolInv (step p op).1 := step_inv h op
+/-- EVERY operation (with every argument, succeeding or failing) preserves the invariant — except
+`Molecule.clear()` on a molecule that has an interaction with an atom (`Op.safe`, finding F-C12-4,
+`clear_dangling_witness` in `VermouthProps/C12_Ext.lean`) -/
+theorem inv_step (p : Pool) (op : Op) (h : PoolInv p) (hs : op.safe p = true) : PoolInv (step p op).1 :=
+  step_inv h op hs
 
-/-- after ANY sequence of editing operations every member of the pool satisfies the invariant -/
-theorem inv_reachable (ops : List Op) : PoolInv (run [] ops) := run_inv inv_init.1 ops
+/-- after ANY sequence of editing operations, each safe where it is applied (in particular any
+sequence without `clear`, `safe_run_of_no_clear`), every member of the pool satisfies the invariant -/
+theorem inv_reachable (ops : List Op) (hs : SafeRun [] ops = true) : PoolInv (run [] ops) :=
+  run_inv inv_init.1 ops hs
 
 /-- the first clause of C12, spelled out: after any history every interaction and every bond of
 every molecule refers only to atoms that are present, and keys are distinct -/
-theorem reachable_no_dangling (ops : List Op) (m : Mol) (hm : m ∈ run [] ops) :
+theorem reachable_no_dangling (ops : List Op) (hs : SafeRun [] ops = true) (m : Mol) (hm : m ∈ run [] ops) :
     m.keys.Nodup ∧
     (∀ e ∈ m.edges, m.hasNode e.1 = true ∧ m.hasNode e.2 = true) ∧
     (∀ ti ∈ m.inters, ∀ a ∈ ti.2.atoms, m.hasNode a = true) := by
-  obtain ⟨⟨h1, h2, h3⟩, _⟩ := inv_reachable ops m hm
+  obtain ⟨⟨h1, h2, h3⟩, _⟩ := inv_reachable ops hs m hm
   refine ⟨h1, ?_, ?_⟩
   · intro e he; exact ⟨(mem_keys_iff m _).mpr (h2 e he).1, (mem_keys_iff m _).mpr (h2 e he).2⟩
   · intro ti hti a ha; exact (mem_keys_iff m _).mpr (h3 ti hti a ha)
@@ -93,14 +98,15 @@ theorem reachable_no_dangling (ops : List Op) (m : Mol) (hm : m ∈ run [] ops) 
 def exHistory : List Op :=
   [.newMol (some 1),
    .fromBlock { nodes := [("N", { resid := some 1 }), ("CA", {}), ("C", {})], edges := [("N", "CA"), ("CA", "C")],
-                inters := [("bonds", ["N", "CA"], "p", 0)], nrexcl := some 1 } 1 0 0,
+                inters := [{ ty := "bonds", atoms := ["N", "CA"], params := "p" }], nrexcl := some 1 } 1 0 0,
    .merge 0 1, .merge 0 1, .addNodes 0 [(5, {}), (6, {}), (40, {})], .merge 0 1,
-   .addInter 0 "angles" [40, 41, 5] "q" 0, .removeNodes 0 [41, 2], .copy 0, .subgraph 0 [6, 40, 6],
+   .addInter 0 "angles" [40, 41, 5] "q" none, .removeNodes 0 [41, 2], .copy 0, .subgraph 0 [6, 40, 6],
    .addEdge 2 100 6, .removeNode 0 40, .merge 3 2]
 
 example : (run [] exHistory).length = 4 := by decide
 example : ((run [] exHistory)[0]?.map Mol.keys) = some [1, 3, 4, 5, 6, 42, 43] := by decide
 example : PoolInv (run [] exHistory) := by decide
+example : SafeRun [] exHistory = true := by decide
 
 /-! ## 3. Frame: a copy or subgraph can be edited without changing its source -/
 
@@ -126,32 +132,37 @@ theorem frame_history (p : Pool) (ops : List Op) (i : Nat) (hi : i < p.length)
 example : (run [exA] [.copy 0, .removeNode 1 2, .addNode 1 9 {}, .merge 1 0])[0]? = some exA := by decide
 example : (run [exA] [.copy 0, .removeNode 1 2, .addNode 1 9 {}, .merge 1 0])[1]? ≠ some exA := by decide
 
-/-- under the invariant the copy has exactly the nodes (with attributes, in order), edges,
-interactions, citations and nrexcl of its source; only the cache is reset -/
-theorem copy_is_equal_content (m : Mol) (h : m.Inv) :
+/-- under the invariant the copy has exactly the nodes (with attributes, in order), edges (with
+their attribute dicts), interactions, citations, nrexcl, force field and log entries of its source;
+only the cache is reset -/
+theorem copy_is_equal_content (m : Mol) (h : m.Inv) (he : m.EaOk) :
     m.copy = { m with maxNode := none } ∧
     m.copy.nodes = m.nodes ∧ m.copy.edges = m.edges ∧ m.copy.inters = m.inters ∧
-    m.copy.cites = m.cites ∧ m.copy.nrexcl = m.nrexcl := by
-  rw [copy_eq h]; exact ⟨rfl, rfl, rfl, rfl, rfl, rfl⟩
+    m.copy.cites = m.cites ∧ m.copy.nrexcl = m.nrexcl ∧
+    m.copy.eattr = m.eattr ∧ m.copy.ff = m.ff ∧ m.copy.logs = m.logs := by
+  rw [copy_eq h he]; exact ⟨rfl, rfl, rfl, rfl, rfl, rfl, rfl, rfl, rfl⟩
 
 example : exB.copy = { exB with maxNode := none } := by decide
 
 /-- content of `m.subgraph ks`: the requested keys in request order without repetition
 (`List.eraseDups`), each with the source's attributes; exactly the source's edges with both end
-points requested and the source's interactions with all atoms requested, in the source's order -/
+points requested (with their attribute dicts) and the source's interactions with all atoms
+requested, in the source's order; citations, nrexcl and force field of the source; NO log entries -/
 theorem subgraph_content (m : Mol) (ks : List Int) (s : Mol) (h : m.subgraph ks = some s) :
     s.keys = ks.eraseDups ∧
     (∀ k a, (k, a) ∈ s.nodes ↔ k ∈ ks ∧ lookupAttrs m.nodes k = some a) ∧
     s.edges = m.edges.filter (fun e => decide (e.1 ∈ ks ∧ e.2 ∈ ks)) ∧
     s.inters = m.inters.filter (fun ti => decide (∀ a ∈ ti.2.atoms, a ∈ ks)) ∧
-    s.cites = m.cites ∧ s.nrexcl = m.nrexcl := by
+    s.cites = m.cites ∧ s.nrexcl = m.nrexcl ∧
+    s.eattr = m.eattr.filter (fun x => decide (x.1.1 ∈ ks ∧ x.1.2 ∈ ks)) ∧ s.ff = m.ff ∧ s.logs = [] := by
   refine ⟨by rw [subgraph_keys m ks s h, dedupKeys_eq_eraseDups], subgraph_nodes_mem m ks s h, ?_⟩
   unfold Mol.subgraph at h
   split at h
   · cases h
-    refine ⟨?_, ?_, rfl, rfl⟩
+    refine ⟨?_, ?_, rfl, rfl, ?_, rfl, rfl⟩
     · apply List.filter_congr; intro e _; simp
     · apply List.filter_congr; intro ti _; apply Bool.eq_iff_iff.mpr; simp
+    · apply List.filter_congr; intro x _; simp
   · cases h
 
 /-- with distinct keys the attributes looked up are the source's node entries -/
@@ -179,9 +190,13 @@ example : (exA.subgraph [2, 1]).map (fun s => (s.edges, s.inters.length)) = some
 /-! ## 4. Error outcomes leave the state unchanged -/
 
 /-- whatever the operation: if it does not report `ok`, the whole pool is unchanged
-(`add_or_replace_interaction` included: it can only fail before it changes anything) -/
-theorem error_no_change (p : Pool) (op : Op) (h : (step p op).2 ≠ .ok) : (step p op).1 = p :=
-  step_err p op h
+(`add_or_replace_interaction` included: it can only fail before it changes anything).  The two
+exceptions are excluded by `Op.failSafe`: a molecule merged into itself (F-C12-5) and a merge
+whose newcomer has a log entry that mentions an atom it does not have (F-C12-6); see
+`self_merge_spec` and `merge_log_keyerror_witness` in `VermouthProps/C12_Ext.lean` -/
+theorem error_no_change (p : Pool) (op : Op) (hfs : op.failSafe p = true) (h : (step p op).2 ≠ .ok) :
+    (step p op).1 = p :=
+  step_err p op hfs h
 
 /-- the error conditions do raise: removeNode of an absent key, addInter with an unknown atom,
 removeInter of an absent interaction, subgraph with an unknown key, merge with different nrexcl,
@@ -191,7 +206,8 @@ theorem error_raised (p : Pool) (i : Nat) (m : Mol) (hm : p[i]? = some m) :
     (∀ ty atoms pr v, (∃ a ∈ atoms, a ∉ m.keys) → step p (.addInter i ty atoms pr v) = (p, .keyerror)) ∧
     (∀ ty atoms v, removeFirst m.inters ty atoms v = none → step p (.removeInter i ty atoms v) = (p, .keyerror)) ∧
     (∀ ks, (∃ k ∈ ks, k ∉ m.keys) → step p (.subgraph i ks) = (p, .keyerror)) ∧
-    (∀ j o, j ≠ i → p[j]? = some o → mergeNrexcl m o ≠ o.nrexcl → step p (.merge i j) = (p, .valueerror)) ∧
+    (∀ j o, j ≠ i → p[j]? = some o → (m.ff ≠ o.ff ∨ mergeNrexcl m o ≠ o.nrexcl) →
+      step p (.merge i j) = (p, .valueerror)) ∧
     (∀ b ao ro co, b.toMolecule ao ro co = none → step p (.fromBlock b ao ro co) = (p, .keyerror)) := by
   refine ⟨?_, ?_, ?_, ?_, ?_, ?_⟩
   · intro k hk
@@ -211,10 +227,10 @@ theorem error_raised (p : Pool) (i : Nat) (m : Mol) (hm : p[i]? = some m) :
     have hij : ¬ i = j := fun e => hj e.symm
     simp only [step, hij, ↓reduceIte, hm, ho, merge_err hn, setAt, set_self p i m hm]
   · intro b ao ro co hb
-    simp only [step, hb]
+    simp only [step, fromBlockStep, hb]
 
 example : step [exA] (.removeNode 0 3) = ([exA], .nxerror) := by decide
-example : step [exA] (.addInter 0 "bonds" [1, 4] "p" 0) = ([exA], .keyerror) := by decide
+example : step [exA] (.addInter 0 "bonds" [1, 4] "p" none) = ([exA], .keyerror) := by decide
 example : step [exA, { exB with nrexcl := some 3 }] (.merge 0 1) = ([exA, { exB with nrexcl := some 3 }], .valueerror) := by
   decide
 
@@ -259,7 +275,7 @@ theorem remove_drops_interactions (m : Mol) (ks : List Int) :
   · intro k hk
     rw [dropNodes_keys] at hk; simpa using (List.mem_filter.mp hk).2
 
-example : (exA.dropNodes [5, 7]).inters = [("bonds", { atoms := [1, 2], params := "p", version := 0 })] := by decide
+example : (exA.dropNodes [5, 7]).inters = [("bonds", { atoms := [1, 2], params := "p" })] := by decide
 example : (exA.dropNodes [5, 7]).edges = [(1, 2)] := by decide
 
 /-! ## 6. Merge (`self.merge_molecule(other)`), under the invariant of both operands -/
@@ -279,14 +295,18 @@ theorem offset_shift_spec (self : Mol) :
     refine ⟨hm.1, hm.2, a, ha, lookupAttrs_mem _ _ _ ha, ?_⟩
     simp only [Mol.shiftBy, if_neg h, ha]
 
-/-- a merge never takes the `KeyError` branches (stale cache, dangling atom of the newcomer):
-it fails exactly on an nrexcl mismatch, with ValueError -/
-theorem merge_outcome (self other : Mol) (hs : self.Inv) (ho : other.Inv) :
-    (self.merge other).2 = (if mergeNrexcl self other = other.nrexcl then .ok else .valueerror) ∧
+/-- a merge never takes the `KeyError` branches (stale cache, dangling atom of the newcomer; and,
+when the newcomer's log entries mention only its own atoms, the log-entry loop): it fails exactly
+on a force-field or nrexcl mismatch, with ValueError -/
+theorem merge_outcome (self other : Mol) (hs : self.Inv) (ho : other.Inv) (hl : other.LogOk) :
+    (self.merge other).2 =
+      (if self.ff = other.ff ∧ mergeNrexcl self other = other.nrexcl then .ok else .valueerror) ∧
     ((self.merge other).2 = .ok ∨ (self.merge other).2 = .valueerror) := by
-  by_cases hn : mergeNrexcl self other = other.nrexcl
-  · rw [merge_eq hs ho hn, if_pos hn]; exact ⟨rfl, Or.inl rfl⟩
-  · rw [merge_err hn, if_neg hn]; exact ⟨rfl, Or.inr rfl⟩
+  by_cases hf : self.ff = other.ff
+  · by_cases hn : mergeNrexcl self other = other.nrexcl
+    · rw [merge_eq hs ho hf hn, mergeOut_ok hl, if_pos ⟨hf, hn⟩]; exact ⟨rfl, Or.inl rfl⟩
+    · rw [merge_err (Or.inr hn), if_neg (fun h => hn h.2)]; exact ⟨rfl, Or.inr rfl⟩
+  · rw [merge_err (Or.inl hf), if_neg (fun h => hf h.1)]; exact ⟨rfl, Or.inr rfl⟩
 
 /-- every node of `self` is kept as it was (same position, same attributes); the newcomer's
 nodes follow in their order, the i-th with key offset + 1 + i -/
@@ -444,7 +464,8 @@ theorem to_molecule_shift (b : Block) (atomOff residOff cgOff : Int) (m : Mol)
 
 def exBlock : Block :=
   { nodes := [("N", { resid := some 1 }), ("CA", {}), ("C", { cg := some 2 })], edges := [("N", "CA"), ("C", "CA")],
-    inters := [("bonds", ["N", "CA"], "p", 0), ("angles", ["C", "CA", "N"], "q", 0)], nrexcl := some 1 }
+    inters := [{ ty := "bonds", atoms := ["N", "CA"], params := "p" },
+               { ty := "angles", atoms := ["C", "CA", "N"], params := "q", version := some 0 }], nrexcl := some 1 }
 
 example : ((exBlock.toMolecule 5 2 3).map Mol.keys) = some [5, 6, 7] := by decide
 example : ((exBlock.toMolecule 5 2 3).map (fun m => m.nodes.map (fun p => (p.2.resid, p.2.cg)))) =
@@ -494,21 +515,22 @@ theorem remove_matching_first (m : Mol) (ty : String) (t : Template) :
     | some l => exact Or.inl rfl
 
 /-- what a template matches: same atoms in the same order; the parameters if the template gives
-any; the version if the meta template gives one; and, for a `DeleteInteraction`, every attribute
-given for the k-th atom equals that of the molecule's node -/
+any; the `version` key of the meta template against `meta.get('version')` of the interaction
+(`predOk`, spelled out by `pred_holds_iff` in `VermouthProps/C12_Ext.lean`: a plain value — 0
+included — must be equal, so version 0 does NOT match an interaction without version key); and,
+for a `DeleteInteraction`, every attribute given for the k-th atom holds of the molecule's node -/
 theorem inter_match_iff (nodes : List (Int × Attrs)) (t : Template) (i : Inter) :
     interMatch nodes t i = true ↔
       i.atoms = t.atoms ∧ (∀ p, t.params = some p → i.params = p) ∧
-      (∀ v, t.version = some v → i.version = v) ∧
+      predOk t.version i.version = true ∧
       (∀ l, t.atomAttrs = some l → ∀ ax ∈ i.atoms.zip l,
         ∃ na, lookupAttrs nodes ax.1 = some na ∧ attrsMatch na ax.2 = true) := by
   unfold interMatch
   simp only [Bool.and_eq_true, Bool.or_eq_true, beq_iff_eq, Option.isNone_iff_eq_none]
   constructor
   · rintro ⟨⟨⟨h1, h2⟩, h3⟩, h4⟩
-    refine ⟨h1, ?_, ?_, ?_⟩
+    refine ⟨h1, ?_, h4, ?_⟩
     · intro p hp; rcases h2 with h2 | h2 <;> rw [hp] at h2 <;> cases h2; rfl
-    · intro v hv; rcases h4 with h4 | h4 <;> rw [hv] at h4 <;> cases h4; rfl
     · intro l hl ax hax
       rw [hl] at h3
       simp only [List.all_eq_true] at h3
@@ -517,7 +539,7 @@ theorem inter_match_iff (nodes : List (Int × Attrs)) (t : Template) (i : Inter)
       | none => rw [hla] at this; cases this
       | some na => rw [hla] at this; exact ⟨na, rfl, this⟩
   · rintro ⟨h1, h2, h3, h4⟩
-    refine ⟨⟨⟨h1, ?_⟩, ?_⟩, ?_⟩
+    refine ⟨⟨⟨h1, ?_⟩, ?_⟩, h3⟩
     · cases hp : t.params with
       | none => exact Or.inl rfl
       | some p => right; rw [h2 p hp]
@@ -528,17 +550,16 @@ theorem inter_match_iff (nodes : List (Int × Attrs)) (t : Template) (i : Inter)
         intro ax hax
         obtain ⟨na, e1, e2⟩ := h4 l hl ax hax
         rw [e1]; exact e2
-    · cases hv : t.version with
-      | none => exact Or.inl rfl
-      | some v => right; rw [h3 v hv]
 
 example : (exA.removeMatching "angles" { atoms := [1, 2, 5] }).1.inters =
-    [("bonds", { atoms := [1, 2], params := "p", version := 0 })] := by decide
+    [("bonds", { atoms := [1, 2], params := "p" })] := by decide
 example : (exA.removeMatching "angles" { atoms := [1, 2, 5], params := some "zz" }).2 = .valueerror := by decide
-example : (exA.removeMatching "bonds" { atoms := [1, 2], atomAttrs := some [{ name := some "N" }, { resid := some 9 }] }).2
-    = .valueerror := by decide
-example : (exA.removeMatching "bonds" { atoms := [1, 2], atomAttrs := some [{ name := some "N", cg := some 2 }] }).2
-    = .ok := by decide
+def exTmplNo : Template :=
+  { atoms := [1, 2], atomAttrs := some [{ name := some (.eq (some "N")) }, { resid := some (.eq (some 9)) }] }
+def exTmplYes : Template :=
+  { atoms := [1, 2], atomAttrs := some [{ name := some (.eq (some "N")), cg := some (.eq (some 2)) }] }
+example : (exA.removeMatching "bonds" exTmplNo).2 = .valueerror := by decide
+example : (exA.removeMatching "bonds" exTmplYes).2 = .ok := by decide
 
 /-- `prune_edges_between_selections` / `prune_edges_with_selectors` remove exactly the bonds with
 one end in each selection; no node, interaction or anything else is touched (so no bond with an
@@ -546,7 +567,7 @@ absent end point can appear and no atom is dropped) -/
 theorem prune_edges_spec (m : Mol) (a b : List Int) (na : String) (nb : Option String) :
     (m.pruneEdges a b).edges = m.edges.filter (fun e =>
       decide (¬ ((e.1 ∈ a ∧ e.2 ∈ b) ∨ (e.2 ∈ a ∧ e.1 ∈ b)))) ∧
-    m.pruneEdges a b = { m with edges := (m.pruneEdges a b).edges } ∧
+    m.pruneEdges a b = { m with edges := (m.pruneEdges a b).edges, eattr := (m.pruneEdges a b).eattr } ∧
     m.pruneByName na nb = m.pruneEdges (m.selectByName na) (m.selectByName (nb.getD na)) ∧
     (∀ k, k ∈ m.selectByName na ↔ ∃ at', (k, at') ∈ m.nodes ∧ at'.name = some na) := by
   refine ⟨?_, rfl, rfl, ?_⟩
@@ -570,41 +591,49 @@ A system is a list of references (pool indices).  `SInv st` = every pool member 
 
 theorem sinv_init : SInv {} := by decide
 
-/-- every system-level operation (the molecule operations included) preserves `SInv` -/
-theorem sinv_step (st : State) (op : SOp) (h : SInv st) : SInv (sstep st op).1 := sstep_inv h op
+/-- every system-level operation (the molecule operations included, `clear` of a molecule with
+interactions excepted: `Op.safe`) preserves `SInv` -/
+theorem sinv_step (st : State) (op : SOp) (h : SInv st)
+    (hsafe : ∀ op', op = .mol op' → op'.safe st.pool = true) : SInv (sstep st op).1 := sstep_inv h op hsafe
 
-theorem sinv_reachable (ops : List SOp) : SInv (srun {} ops) := srun_inv sinv_init ops
+theorem sinv_reachable (ops : List SOp) (hs : SSafeRun {} ops = true) : SInv (srun {} ops) :=
+  srun_inv sinv_init ops hs
 
-/-- frame: a pool member other than the one edited in place (`SOp.target`: the target of a
+/-- frame: a pool member other than the ones edited in place (`SOp.targets`: the target of a
 molecule operation, the first molecule of the system for MergeAllMolecules, nothing for
-add_molecule / System.copy / MergeChains) is unchanged, and the pool only grows -/
+System.copy / MergeChains; `add_molecule` sets force fields — of the added molecule and, when the
+system had none, of all its molecules — and nothing else: `add_molecule_only_ff`) is unchanged, and
+the pool only grows -/
 theorem sstep_frame_other (st : State) (op : SOp) (j : Nat) (hj : j < st.pool.length)
-    (ht : SOp.target st op ≠ some j) :
+    (ht : j ∉ SOp.targets st op) :
     (sstep st op).1.pool[j]? = st.pool[j]? ∧ st.pool.length ≤ (sstep st op).1.pool.length :=
   sstep_frame st op j hj ht
 
 /-- over a history: molecule `j` is unchanged by any history that never edits `j` in place -/
 theorem sframe_history (st : State) (ops : List SOp) (j : Nat) (hj : j < st.pool.length)
-    (ht : ∀ st' op, op ∈ ops → SOp.target st' op ≠ some j) : (srun st ops).pool[j]? = st.pool[j]? :=
+    (ht : ∀ st' op, op ∈ ops → j ∉ SOp.targets st' op) : (srun st ops).pool[j]? = st.pool[j]? :=
   srun_frame st ops j hj ht
 
 /-- failing system-level operations: the system lists are unchanged, and the whole state is
 unchanged unless the operation is MergeAllMolecules (see `merge_all_error_partial_witness`) -/
-theorem sstep_error (st : State) (op : SOp) (h : (sstep st op).2 ≠ .ok) :
+theorem sstep_error (st : State) (op : SOp) (hfs : ∀ op', op = .mol op' → op'.failSafe st.pool = true)
+    (h : (sstep st op).2 ≠ .ok) :
     (sstep st op).1.systems = st.systems ∧ ((∀ s, op ≠ .mergeAll s) → (sstep st op).1 = st) :=
-  sstep_err st op h
+  sstep_err st op hfs h
 
 /-- `System.copy`: the new system refers to NEW pool members only (indices from the old pool
 length on, so no older system refers to them and, by the frame theorems, editing them never
-shows in the source and vice versa); the k-th is the copy of the source's k-th molecule; the old
-pool and the old systems are unchanged -/
+shows in the source and vice versa); the k-th is the copy of the source's k-th molecule with the
+system's force field set on it (`new_system.force_field = self.force_field`); the old pool and the
+old systems are unchanged -/
 theorem system_copy_independent (st : State) (s : Nat) (l : List Nat) (h : SInv st)
     (hs : st.systems[s]? = some l) :
     ∃ ms, getMols st.pool l = some ms ∧ ms.length = l.length ∧
       (∀ k (hk : k < l.length), st.pool[l[k]]? = ms[k]?) ∧
       sstep st (.copySys s) =
-        ({ pool := st.pool ++ ms.map Mol.copy,
-           systems := st.systems ++ [List.range' st.pool.length l.length] }, .ok) ∧
+        ({ pool := st.pool ++ ms.map (fun m => { m.copy with ff := st.ffOf s }),
+           systems := st.systems ++ [List.range' st.pool.length l.length],
+           sysff := st.sysff ++ [st.ffOf s] }, .ok) ∧
       (∀ l' ∈ st.systems, ∀ i ∈ l', i ∉ List.range' st.pool.length l.length) := by
   obtain ⟨ms, hg⟩ := getMols_isSome st.pool l (h.2 l (List.mem_of_getElem? hs))
   obtain ⟨h1, h2⟩ := getMols_spec _ _ _ hg
@@ -615,22 +644,44 @@ theorem system_copy_independent (st : State) (s : Nat) (l : List Nat) (h : SInv 
     have := List.mem_range'_1.mp hr
     omega
 
-/-- `System.add_molecule` stores a reference: pool unchanged, the index appended -/
+/-- `System.add_molecule` stores a reference (the index is appended) unless both the system and
+the molecule have a force field and they differ (KeyError, nothing changed).  Force fields: a
+molecule without one takes the system's; a system without one takes the molecule's and hands it
+to every molecule it already holds -/
 theorem add_molecule_step (st : State) (s i : Nat) (l : List Nat) (m : Mol)
     (hs : st.systems[s]? = some l) (hm : st.pool[i]? = some m) :
-    sstep st (.addMol s i) = ({ st with systems := st.systems.set s (l ++ [i]) }, .ok) := by
-  simp only [sstep, hs, hm]
+    (((st.ffOf s).isSome && takeFF (st.ffOf s) m.ff != st.ffOf s) = true →
+      sstep st (.addMol s i) = (st, .keyerror)) ∧
+    (((st.ffOf s).isSome && takeFF (st.ffOf s) m.ff != st.ffOf s) = false →
+      (sstep st (.addMol s i)).2 = .ok ∧
+      (sstep st (.addMol s i)).1.systems = st.systems.set s (l ++ [i]) ∧
+      (sstep st (.addMol s i)).1.sysff =
+        (if (st.ffOf s).isNone then st.sysff.set s (takeFF (st.ffOf s) m.ff) else st.sysff) ∧
+      (sstep st (.addMol s i)).1.pool =
+        (if (st.ffOf s).isNone then
+           setFFs (st.pool.set i { m with ff := takeFF (st.ffOf s) m.ff }) l (takeFF (st.ffOf s) m.ff)
+         else st.pool.set i { m with ff := takeFF (st.ffOf s) m.ff })) := by
+  constructor
+  · intro hc; simp only [sstep, hs, hm, hc, ↓reduceIte]
+  · intro hc; simp only [sstep, hs, hm, hc, Bool.false_eq_true, ↓reduceIte, and_self]
+
+/-- `add_molecule` changes nothing of any molecule but its force field -/
+theorem add_molecule_only_ff (st : State) (s i j : Nat) :
+    ((sstep st (.addMol s i)).1.pool[j]?).map Mol.noFF = (st.pool[j]?).map Mol.noFF :=
+  addMol_noFF st s i j
 
 /-! ### the fold of `merge_molecule` behind both processors -/
 
-/-- the fold stops at the first failure; it can only fail with ValueError (nrexcl mismatch); the
+/-- the fold stops at the first failure; when the log entries of the operands mention only their
+own atoms it can only fail with ValueError (force-field or nrexcl mismatch); the
 accumulator satisfies the invariant at every point (also after a failure) -/
-theorem merge_all_outcome (acc : Mol) (rest : List Mol) (hacc : acc.Inv) (hrest : ∀ o ∈ rest, o.Inv) :
+theorem merge_all_outcome (acc : Mol) (rest : List Mol) (hacc : acc.Inv) (hrest : ∀ o ∈ rest, o.Inv)
+    (hlog : ∀ o ∈ rest, o.LogOk) :
     (mergeFold acc rest).1.Inv ∧
     ((mergeFold acc rest).2 = .ok ∨ (mergeFold acc rest).2 = .valueerror) ∧
     ((mergeFold acc rest).2 = .ok → ∀ k, k < rest.length →
       (runningList acc rest)[k]? = some (mergeFold acc (rest.take k)).1) :=
-  ⟨mergeFold_inv rest hacc hrest, mergeFold_outcome rest hacc hrest,
+  ⟨mergeFold_inv rest hacc hrest, mergeFold_outcome rest hacc hrest hlog,
    fun hok k hk => runningList_get acc rest k hk hok⟩
 
 /-- **merge_all_keeps.**  `runningList acc rest` pairs every operand with the accumulator it is
@@ -683,8 +734,8 @@ theorem merge_all_step (st : State) (s i0 : Nat) (rest : List Nat) (m0 : Mol) (m
     (hs : st.systems[s]? = some (i0 :: rest)) (hne : i0 ∉ rest)
     (hm : st.pool[i0]? = some m0) (hg : getMols st.pool rest = some ms) :
     sstep st (.mergeAll s) =
-      ({ pool := st.pool.set i0 (mergeFold m0 ms).1,
-         systems := if (mergeFold m0 ms).2 = .ok then st.systems.set s [i0] else st.systems },
+      ({ st with pool := st.pool.set i0 (mergeFold m0 ms).1,
+                 systems := if (mergeFold m0 ms).2 = .ok then st.systems.set s [i0] else st.systems },
        (mergeFold m0 ms).2) ∧
     sstep { st with systems := st.systems.set s [] } (.mergeAll s) =
       ({ st with systems := st.systems.set s [] }, if s < st.systems.length then .ok else .badindex) := by
@@ -699,7 +750,7 @@ theorem merge_all_step (st : State) (s i0 : Nat) (rest : List Nat) (m0 : Mol) (m
 `all_chains`, else those whose every atom has its chain among `chains` — an EMPTY molecule is
 always selected); giving both or neither of chains / all_chains is a ValueError; nothing selected:
 no change; otherwise a NEW molecule = fold over the selected molecules in order starting from an
-empty molecule is appended to the pool, and in the system it takes the place of the first selected
+empty molecule with the system's force field is appended to the pool, and in the system it takes the place of the first selected
 molecule while the other selected ones disappear and the rest keep their order
 (`replace_selected_spec`).  No existing molecule is modified; a failure changes nothing. -/
 theorem merge_chains_step (st : State) (s : Nat) (chains : List (Option String)) (all : Bool)
@@ -710,11 +761,11 @@ theorem merge_chains_step (st : State) (s : Nat) (chains : List (Option String))
       ((ms.filter (chainSelected chains all)) = [] → sstep st (.mergeChains s chains all) = (st, .ok)) ∧
       (∀ f more, ms.filter (chainSelected chains all) = f :: more →
         sstep st (.mergeChains s chains all) =
-          (if (mergeFold (freshMerged f.nrexcl) (f :: more)).2 = .ok then
-            ({ pool := st.pool ++ [(mergeFold (freshMerged f.nrexcl) (f :: more)).1],
-               systems := st.systems.set s
-                 (replaceSelected st.pool.length (l.zip (ms.map (chainSelected chains all))) false) }, .ok)
-           else (st, (mergeFold (freshMerged f.nrexcl) (f :: more)).2)))) := by
+          (if (mergeFold (freshMerged f.nrexcl (st.ffOf s)) (f :: more)).2 = .ok then
+            ({ st with pool := st.pool ++ [(mergeFold (freshMerged f.nrexcl (st.ffOf s)) (f :: more)).1],
+                       systems := st.systems.set s
+                         (replaceSelected st.pool.length (l.zip (ms.map (chainSelected chains all))) false) }, .ok)
+           else (st, (mergeFold (freshMerged f.nrexcl (st.ffOf s)) (f :: more)).2)))) := by
   have hz : ∀ (xs : List Mol), ((xs.zip (xs.map (chainSelected chains all))).filter (fun x => x.2)) =
       (xs.filter (chainSelected chains all)).map (fun m => (m, true)) := by
     intro xs
